@@ -341,7 +341,16 @@ def solver_call(repo, tier, seed):
     return out
 
 
-CONTRACTS = []
+def _c08_stored_food_wiring():
+    """The stock regime (storage between years or not) decides which meat and stored-food constraints the model gets: it
+    must reach the optimiser as the scenario configured it, also when stored food is switched off - C08's wiring contract
+    of Parameters.init_stored_food (what it hands on, and that it writes nothing else), re-run under this property."""
+    from contracts import C08
+    from contracts.common import relabelled
+    return relabelled([c for c in C08.CONTRACTS if type(c).__name__ == "Wiring" and c.which == "init_stored_food"], "C02")
+
+
+CONTRACTS = _c08_stored_food_wiring()
 EXTRA = [completeness, soundness_is_c01, intake_caps, formulation_uses_this_runs_inputs_only, feed_round_shape, model_is_the_templates, pinned_consumption, solver_call]
 TRUSTED = [
     "CBC's reported optimum is the optimum of the model it was given, within gapRel (NOT decided: no contract within reach expresses a solver's correctness)",
